@@ -1,4 +1,5 @@
 import MiniconfVerif.Lemmas.WalkLog
+import MiniconfVerif.Lemmas.GenTieDeriveArms
 
 /-! # C12 — accessor, validator and deny attributes are invoked in the documented protocol
 
@@ -74,5 +75,36 @@ theorem validator_protocol (a : Attrs) (o : Out) :
   · intro h
     unfold applyValidator
     cases hr : o.res <;> simp_all [Res.isOk]
+
+open MiniconfVerif.Gen MiniconfVerif.GenTie.Arm in
+/-- **The arms the derive generates are the model's field step.**  The protocol theorems above are equations of
+`Tree.walk.goFld`, the model's step into one field.  (1) For every attribute set, operation, subtree, key source and codec,
+the arm the derive generates for such a field — `Arm.shapeOf`: `Err(Access(0, msg))` under a deny attribute of the
+operation; otherwise `G.and_then(child)` with `G` the plain place or the operation's custom accessor
+`.map_err(Access(0, ·))`, followed by `.and_then(|depth| validate(depth).map_err(Invalid(0, ·)))` in `deserialize_by_key`
+only — evaluated with the semantics of `Result::and_then` / `Result::map_err` (`Arm.run`), returns the result of `goFld` at
+that field and invokes exactly the same user callbacks in the same order.  (2) For **every derived type of the corpus**
+(`DeriveArmTies`, regenerated on every run) the arms actually present in the derive's output
+(`Gen/DeriveArms.lean`, read from the expansion produced by the macro crate's current source) are `shapeOf` of the
+declared attributes of the retained fields / variants, in declaration order, in all four by-key functions, with the
+default arm of the declared kind (`unreachable!()` / `Absent(0)`). -/
+theorem source_derive_arms_are_model :
+    (∀ (io : Io) (op : Op) (a : Attrs) (t : Tree) (rest : List (Attrs × Tree)) (ks : KeySrc),
+      let r := run (shapeOf a op) (rtOf a op) (childOf (t.walk io op ks))
+      toRes r.1 = (Tree.walk.goFld io op ((a, t) :: rest) 0 ks).1.res ∧
+        r.2 = (Tree.walk.goFld io op ((a, t) :: rest) 0 ks).1.log) ∧
+    DeriveArmTies :=
+  ⟨arm_is_goFld, deriveArmTies⟩
+
+-- non-vacuity: an accessor + validator arm on a successful write logs the accessor, then the child's calls, then the
+-- validator with the child's depth, and returns the validator's replacement depth; a failing accessor stops everything
+open MiniconfVerif.Gen MiniconfVerif.GenTie.Arm in
+example : run (.access (some 7) (some 7))
+    { acc := (.getMut 7, none), val := fun d => (.validate 7 d, .replace 5) } (.ok 2, [.getMut 9]) =
+    (.ok 5, [.getMut 7, .getMut 9, .validate 7 2]) := rfl
+open MiniconfVerif.Gen MiniconfVerif.GenTie.Arm in
+example : run (.access (some 7) (some 7))
+    { acc := (.getMut 7, some "locked"), val := fun d => (.validate 7 d, .keep) } (.ok 2, [.getMut 9]) =
+    (.error (.trav (.access 0 "locked")), [.getMut 7]) := rfl
 
 end MiniconfVerif.C12
